@@ -602,6 +602,11 @@ func c16allocsOf(v ssa.Value, elem string) []*ssa.Alloc {
 		case *ssa.Extract:
 			walk(y.Tuple, d+1)
 		case *ssa.Call:
+			// req.WithContext(ctx) / req.Clone(ctx): a copy of the request the receiver points to, field for field
+			if n := calleeName(&y.Call); (n == "(*net/http.Request).WithContext" || n == "(*net/http.Request).Clone") && len(y.Call.Args) > 0 {
+				walk(y.Call.Args[0], d+1)
+				return
+			}
 			if sc := y.Call.StaticCallee(); sc != nil && isRepoFn(sc) {
 				eachInstr(sc, func(i ssa.Instruction) {
 					if r, ok := i.(*ssa.Return); ok {
